@@ -77,6 +77,12 @@ theorem direction_and_counts (cfg : Config) (s : Shexer.Stmt) (h : (s.prop == cf
   rw [h]
   exact ⟨rfl, cardinality s.card⟩
 
+/-- the direction of the path is the direction of the constraint for **every** statement, the instantiation property included
+(before the repair of `_add_instantiation_constraint` an incoming `^ rdf:type [x]` was written with a direct path) -/
+theorem direction_always (cfg : Config) (s : Shexer.Stmt) : (propShapeOf cfg s).inverse = s.inverse := by
+  unfold propShapeOf
+  split <;> rfl
+
 /-- instantiation constraints: single allowed class value, counts of the statement's cardinality -/
 theorem instantiation_constraint (cfg : Config) (s : Shexer.Stmt) (h : (s.prop == cfg.instProp) = true) :
     (propShapeOf cfg s).restr = Restriction.inValue s.ty ∧ ((propShapeOf cfg s).min, (propShapeOf cfg s).max) = interval s.card := by
